@@ -43,7 +43,8 @@ pub enum Wait {
     Readable(usize),
     Writable(usize, usize),
     Poll(Vec<(i32, i16)>),
-    Child(i32),
+    /// waitpid(pid, flags) that found nothing to report
+    Child(i32, i32),
     Timer,
     ThreadDone(u8),
     /// rendezvous channel (simrt): receiver waits for a sender, sender waits for a receiver
@@ -247,13 +248,14 @@ impl Sim {
             Wait::Readable(d) => self.k.readable(*d),
             Wait::Writable(d, n) => self.k.writable(*d, *n),
             Wait::Poll(v) => v.iter().any(|(fd, ev)| self.k.poll_revents(PARENT_PID, *fd, *ev) != 0),
-            Wait::Child(pid) => {
+            Wait::Child(pid, flags) => {
                 let pid = *pid;
+                let flags = *flags;
                 let mut any = false;
                 for p in self.k.procs.values() {
                     if p.ppid == PARENT_PID && (pid == -1 || pid == 0 || p.pid == pid) {
                         any = true;
-                        if matches!(p.state, PState::Zombie { .. }) {
+                        if matches!(p.state, PState::Zombie { .. }) || (flags & libc::WUNTRACED != 0 && p.stopped && p.stop_unreported != 0) || (flags & libc::WCONTINUED != 0 && p.cont_unreported) {
                             return true;
                         }
                     }
